@@ -7,6 +7,14 @@ CHECKS = {
    text="Seeded exploration of the whole public API (all resource kinds, all built-in effects incl. nested feedback, static + streaming sounds, every handle command with typical / boundary / extreme finite arguments, drops, sample-rate changes) interleaved with device callbacks of arbitrary size and 1..8 channels, under always-on monitors: panic, heap traffic and CPU-time watchdog in the audio role, sample finiteness / range / channel layout, mono == mean of a 2-channel twin world. Sampling, not proof: the input space is unbounded, so exploration with many short diverse runs is the right level.",
    note="Trusts the counting global allocator (armed by a thread-local only while the audio role runs), catch_unwind and /proc CPU accounting; SimBackend replaces the device; internal_buffer_size >= 1; rates capped at 1000, clock speeds at 1e6 ticks/s.",
    technique="deterministic simulation: seeded op-sequence generation against the real mixer behind a simulated device, runtime monitors as oracle, twin-world differential for the mono fold-down"),
+ "C02": dict(level="exploration", design="3 C02",
+   text="Track trees of probe sounds (known positive signals, every process call logged) and probe effects (affine, non-commuting) are rendered through the real manager / renderer on the simulated device while a seeded history adds and removes tracks, sends and sounds, tweens volumes, pauses and resumes tracks. An executable reference mixer recomputes every device buffer from the harness-side mirror (exact point comparison with fixed gains, sound interval bounds while a gain may be mid-tween, exact silence where every contribution is zero); a second oracle checks the call log of every probe: every live sound / effect asked for every output frame exactly once, in order, in slices no longer than the internal buffer, and not at all when removed or paused.",
+   note="Probe signals / effects are built on the public Sound / Effect traits; monotone (positive) signals make interval propagation sound; pause+resume of one track in one gap and partial subtree drops are left to C03 / C12.",
+   technique="deterministic simulation against an executable reference mixer (refinement with interval-valued gains) + probe call-log invariants"),
+ "C06": dict(level="exploration", design="3 C06",
+   text="kira::Parameter is driven update by update on a simulated audio clock (arbitrary partitions, start times immediate / delayed / on a simulated clock that pauses) for every tweenable type, next to the closed form start + (target - start) * ease(elapsed / duration): old value before the start, closed form during (one update of timing slack only where a start time has to be reached), exactly the target from the end on (strict when updates align with the duration), never outside [start, target], retargeting from the current value, previous_value() == last value(). A quarter of the cases read the per-frame gain envelope of a DC sound instead.",
+   note="Clock start times are served by a MockInfo rebuilt per update; tolerance 1e-9 (f64 types) / 1e-5 (f32 types); quaternion slerp is not modelled.",
+   technique="deterministic simulation on a simulated clock against a closed-form reference model; seeded partitions and command histories"),
  "C04": dict(level="exploration", design="3 C04",
    text="The real Box<dyn Sound> of a static sound is driven chunk by chunk on a simulated audio clock next to an executable reference (integer transport + 4-point Hermite at the accumulated position). Seeded exploration over length, slice, start, loop region, reverse, rate, sample-rate pair, chunk partition and seek / loop commands at chunk boundaries, plus (thorough) the complete small-scope space length <= 6 as a workload source. Bit-exact comparison at rate 1, tolerance 2e-5 otherwise; poison frames outside the slice; end detection and reported position against the model.",
    note="Reference model written from the documentation and the property text; Info is an empty MockInfo; after a seek only what the property promises (within one frame) is demanded. One open known finding: rate 1 is not bit-exact at sample rates with sr*(1/sr) != 1.0 (those rates are then not generated for the bit-exact clause).",
